@@ -70,6 +70,9 @@ def cases(tier, seed):
                     for fd in ([nb - 1], list(range(nb))):
                         out.append(dict(sizes=list(sizes), E=E3, k=1, support=[[1]], pattern="dense", fd=fd, mask=None,
                                         hermitian=True, repr=rep, vset=0, total=3, noise=True))
+                        # same levels split by 1e-10 with a user-supplied atol = 1e-6
+                        out.append(dict(sizes=list(sizes), E=E3, k=1, support=[[1]], pattern="dense", fd=fd, mask=None,
+                                        hermitian=True, repr=rep, vset=0, total=3, noise=1e-10, atol=1e-6))
     # every admissible symmetric mask on each block in turn
     for st in lattice.mask_structures(3 if tier == "quick" else 4, hermitian=True):
         for rep in ("sympy", "dense", "csr"):
